@@ -106,3 +106,8 @@ Proof.
   destruct (xn_prefix_bytes a b c d r ltac:(lia) ltac:(lia) ltac:(lia) ltac:(lia) H) as (Xa & Xb & -> & ->).
   exists a, b, r. repeat split; assumption.
 Qed.
+
+(* hence the premise Redisc of the fail-fast / mark-errors simulation needs two elementary facts only:
+   the adapter maps the empty text to the empty text, and upper-case letters are in the deny list *)
+Theorem redisc_of_adapter A cfg deny : map_normalize A [] = [] -> DenyUpper deny -> Redisc A cfg deny.
+Proof. intros H0 HD. exact (redisc_holds A cfg deny H0 HD xn_prefix_spec). Qed.
